@@ -31,6 +31,7 @@ type Model struct {
 	n     int
 	calls int
 	rsa   map[string]*rsa.PrivateKey // by ssh wire blob
+	extra map[string]func(a []*sx) string
 }
 
 func startModel(path string) (*Model, error) {
@@ -100,6 +101,9 @@ func (m *Model) oracle(req string) string {
 	xs := parseAll(req)
 	name := xs[0].atom
 	a := xs[1:]
+	if f, ok := m.extra[name]; ok {
+		return f(a)
+	}
 	switch name {
 	case "aead_seal":
 		aead, err := chacha20poly1305.New(a[0].bytes())
